@@ -901,7 +901,7 @@ theorem judge_sound (cfg : Cfg) (env : Env) (now : Int) (live : List (Nat × Str
 /-! ## 11. Non-vacuity: concrete instances -/
 
 def exEnv : Env := { tenants := [{ name := "b1", key := some .rsa, fed := false }, { name := "one2", key := some .ecdsa, fed := true }] }
-def exHub : Hub := { conns := [(1, "198.51.100.7")] }
+def exHub : Hub := { conns := [(1, .raw "198.51.100.7")] }
 def exUrl : Url :=
   { raw := "https://cloud.example/one/", ok := true, scheme := "https", host := "cloud.example", hostname := "cloud.example",
     port := "", strHost := "https://cloud.example/one/", strHostname := "https://cloud.example/one/", dotSeg := false, srv := "b1" }
